@@ -28,10 +28,10 @@ PROPS["C01"] = dict(
           "binary) against an independent reference GraphQL executor, over rapid-generated operations (fragments, aliases, "
           "@skip/@include, variables) and outcome plans (value/null/error per resolver and directive invocation)",
     note="trusts gqlparser's parser/validator for what a valid operation is, the harness reference executor, and reflection-based "
-         "universal resolvers; schemas are the harness probe schemas (one with renamed root types); the binary is built with -race so that "
+         "universal resolvers; schemas are the harness probe schemas (one with renamed root types) plus random schemas drawn by the sdlgen grammar for the run seed at preparation time (interfaces implementing interfaces, unions, enums, lists and non-null nesting, field-definition directives with arguments; about a third of the object fields made resolvers), generated and compiled like the probes - a random schema that does not generate or compile is dropped and counted (C17 decides that); the binary is built with -race so that "
          "unsynchronised sharing inside the runtime (e.g. of the parsed document) is reported even when the data happens to be right; sampled",
     technique="property-based differential testing (rapid) against a reference executor; cross-configuration metamorphic equality; Go race detector as additional oracle",
-    rule="case = (probe schema, generated operation+variables, plan seed, sparse overrides of resolver/directive outcomes); "
+    rule="case = (probe or random schema, generated operation+variables, plan seed, sparse overrides of resolver/directive outcomes); "
          "non-trivial = operation has >=1 fragment or alias AND a null/error travelled through >=1 non-null link; distinct by "
          "(project, query, plan seed, overrides)",
     assumptions=["gqlparser parser/validator decide validity", "reference executor (harness/refexec) implements spec section 6",
